@@ -474,7 +474,7 @@ def opFileReader (j : Json) : Except String Json := do
 open Vsb.Restore in
 def parseMeta (j : Json) : Except String Meta := do
   pure { mode := (← (← j.getObjVal? "mode").getNat?), uid := (← (← j.getObjVal? "uid").getNat?),
-         gid := (← (← j.getObjVal? "gid").getNat?), mtime := (← (← j.getObjVal? "mtime").getInt?) }
+         gid := (← (← j.getObjVal? "gid").getNat?), mtime := headerMtime (← (← j.getObjVal? "mtime").getNat?) }
 
 open Vsb.Restore in
 /-- File data travels as (content id, length): a list of `length` copies of `id`; the hash of a prefix
